@@ -19,21 +19,24 @@ import (
 // their channel is closed, k >= 0 = every consumer receives k values and then
 // stops for good (0: nobody ever receives).
 //
-// Ghost state: calls[i] applications of the user function to element i,
-// seen[i] received values equal to image slot i, sent completed producer sends.
+// Ghost state (booleans, see v9tag): called[i] the user function has been
+// applied to element i, seen[i] the result of element i has been received,
+// eseen[i] the error of element i has been received.
 //
 // Final conditions (at every quiescent state of every run):
 //   *.closed        cancelled, or consumers that never stop  =>  all outputs
 //                   closed and every library goroutine (workers, closer) returned
 //   *.nothing-lost  not cancelled, eager consumers  =>  every result computed has
-//                   been delivered (got == number of successful applications,
-//                   errors == number of failing applications)
+//                   been delivered: seen[i] == called[i] && !failing[i],
+//                   eseen[i] == called[i] && failing[i]
 //   *.complete      additionally no fail-fast abort  =>  producer done, every
-//                   element applied exactly once, received multiset == image multiset
+//                   element applied (hence, with the above, received multiset ==
+//                   image multiset)
 // Assertions at every step: the argument of every application is an input
-// element, applied at most once; every received value is in the image and not
-// received more often than its multiplicity; (always) no panic, i.e. no send on
-// a closed channel, no double close, no negative WaitGroup counter.
+// element not applied before (*.call.known / *.call.once); every received value
+// is the image of an element whose image has not been received before
+// (*.out.known / *.out.once; likewise *.err.*); always: no panic, i.e. no send
+// on a closed channel, no double close, no negative WaitGroup counter.
 
 // v9failing: the failing set of the job's mode (empty for Pure)
 func v9failing(xs *[v9MaxN]int) (bad, good [v9MaxN]bool, nbad int) {
@@ -67,20 +70,19 @@ func VForkMap() {
 	for i := 0; i < v9n(); i++ {
 		img[i] = v9F(xs[i])
 	}
-	mult, emult, one := v9mult(&img, &good), v9b2i(&bad), v9ones()
-	var calls, seen, eseen [v9MaxN]int
-	sent, got, nerr := 0, 0, 0
+	yes := v9yes()
+	var called, seen, eseen [v9MaxN]bool
 	ctx := v9ctx()
-	in := v9producer(&xs, &sent)
+	in := v9producer(&xs)
 	var f F[int, int]
 	if v9mode() == 0 {
 		f = Pure(func(x int) int {
-			v9note("map", &xs, &calls, x)
+			v9mark("map.call", &xs, &yes, &called, x)
 			return v9F(x)
 		})
 	} else {
 		f = v9lift(func(x int) (int, error) {
-			v9note("map", &xs, &calls, x)
+			v9mark("map.call", &xs, &yes, &called, x)
 			if v9E(x) {
 				return 0, v9err{x}
 			}
@@ -88,17 +90,213 @@ func VForkMap() {
 		})
 	}
 	out, exx := Map(ctx, par, in, f)
-	v9consume("consumer", "map.out", out, &img, &good, &mult, &seen, &got)
-	v9consumeErr("map.err", exx, &xs, &bad, &emult, &eseen, &nerr)
+	v9consume("consumer", "map.out", out, &img, &good, &seen)
+	v9consumeErr("map.err", exx, &xs, &bad, &eseen)
 	vrt.Final("map.closed", func() bool {
 		return !v9quiet(ctx) || (vrt.Closed(out) && vrt.Closed(exx) && vrt.LibExited())
 	})
 	vrt.Final("map.nothing-lost", func() bool {
-		return !v9live(ctx) || (got == v9dot(&calls, &good) && nerr == v9dot(&calls, &bad) &&
+		return !v9live(ctx) || (v9iff(&seen, &called, &good) && v9iff(&eseen, &called, &bad) &&
 			vrt.Exited("consumer") && vrt.Exited("errors"))
 	})
 	vrt.Final("map.complete", func() bool {
-		return !v9live(ctx) || (v9mode() == 2 && nbad != 0) ||
-			(vrt.Exited("producer") && sent == v9n() && v9same(&calls, &one) && v9same(&seen, &mult) && v9same(&eseen, &emult))
+		return !v9live(ctx) || (v9mode() == 2 && nbad != 0) || (vrt.Exited("producer") && v9all(&called))
+	})
+}
+
+// ---------------------------------------------------------------------------
+// FMap: the arrow decides failure first (E), otherwise emits K(a) in {0,1,2}
+// values; value j of element a is G(a,j) tagged with j and the index of a.
+
+func v9K(a int) int         { return (vrt.UF1("K", a) & 3) % 3 }
+func v9G(a int, j int) int { return v9tag(vrt.UF2("G", a, j)<<1|j, a) }
+
+func VForkFMap() {
+	par := vrt.Param("par", 2)
+	xs := v9inputs()
+	bad, good, nbad := v9failing(&xs)
+	var imgA, imgB [v9MaxN]int
+	var okA, okB [v9MaxN]bool
+	for i := 0; i < v9n(); i++ {
+		imgA[i], imgB[i] = v9G(xs[i], 0), v9G(xs[i], 1)
+		okA[i], okB[i] = good[i] && v9K(xs[i]) >= 1, good[i] && v9K(xs[i]) >= 2
+	}
+	yes := v9yes()
+	var called, seenA, seenB, eseen [v9MaxN]bool
+	ctx := v9ctx()
+	in := v9producer(&xs)
+	arrow := func(ctx context.Context, a int, o chan<- int) error {
+		v9mark("fmap.call", &xs, &yes, &called, a)
+		if v9mode() != 0 && v9E(a) {
+			return v9err{a}
+		}
+		k := v9K(a)
+		if k >= 1 {
+			select {
+			case o <- v9G(a, 0):
+			case <-ctx.Done():
+				return nil
+			}
+		}
+		if k >= 2 {
+			select {
+			case o <- v9G(a, 1):
+			case <-ctx.Done():
+				return nil
+			}
+		}
+		return nil
+	}
+	var f FF[int, int]
+	if v9mode() == 1 {
+		f = TryF(arrow)
+	} else {
+		f = LiftF(arrow)
+	}
+	out, exx := FMap(ctx, par, in, f)
+	if v9take() != 0 {
+		vrt.Go("consumer", func() {
+			for k := 0; k != v9take(); k++ {
+				v, more := <-out
+				if !more {
+					vrt.Cover("fmap.out.drained")
+					break
+				}
+				a0, a1 := v9hit(0, v, &imgA, &okA), v9hit(1, v, &imgA, &okA)
+				a2, a3 := v9hit(2, v, &imgA, &okA), v9hit(3, v, &imgA, &okA)
+				b0, b1 := v9hit(0, v, &imgB, &okB), v9hit(1, v, &imgB, &okB)
+				b2, b3 := v9hit(2, v, &imgB, &okB), v9hit(3, v, &imgB, &okB)
+				vrt.Assert("fmap.out.known", vrt.Any(a0, a1, a2, a3, b0, b1, b2, b3))
+				vrt.Assert("fmap.out.once", vrt.Not(vrt.Any(
+					vrt.And(a0, seenA[0]), vrt.And(a1, seenA[1]), vrt.And(a2, seenA[2]), vrt.And(a3, seenA[3]),
+					vrt.And(b0, seenB[0]), vrt.And(b1, seenB[1]), vrt.And(b2, seenB[2]), vrt.And(b3, seenB[3]))))
+				if v9n() > 0 {
+					seenA[0], seenB[0] = vrt.Or(seenA[0], a0), vrt.Or(seenB[0], b0)
+				}
+				if v9n() > 1 {
+					seenA[1], seenB[1] = vrt.Or(seenA[1], a1), vrt.Or(seenB[1], b1)
+				}
+				if v9n() > 2 {
+					seenA[2], seenB[2] = vrt.Or(seenA[2], a2), vrt.Or(seenB[2], b2)
+				}
+				if v9n() > 3 {
+					seenA[3], seenB[3] = vrt.Or(seenA[3], a3), vrt.Or(seenB[3], b3)
+				}
+			}
+		})
+	}
+	v9consumeErr("fmap.err", exx, &xs, &bad, &eseen)
+	vrt.Final("fmap.closed", func() bool {
+		return !v9quiet(ctx) || (vrt.Closed(out) && vrt.Closed(exx) && vrt.LibExited())
+	})
+	vrt.Final("fmap.nothing-lost", func() bool {
+		return !v9live(ctx) || (v9iff(&seenA, &called, &okA) && v9iff(&seenB, &called, &okB) && v9iff(&eseen, &called, &bad) &&
+			vrt.Exited("consumer") && vrt.Exited("errors"))
+	})
+	vrt.Final("fmap.complete", func() bool {
+		return !v9live(ctx) || (v9mode() == 2 && nbad != 0) || (vrt.Exited("producer") && v9all(&called))
+	})
+}
+
+// ---------------------------------------------------------------------------
+// Filter / Partition: the predicate is P; in mode 1 it additionally fails on E
+// (returning true together with the error: a failing element must not be taken).
+
+func v9pred(xs *[v9MaxN]int, called *[v9MaxN]bool, label string) F[int, bool] {
+	yes := v9yes()
+	if v9mode() == 0 {
+		return Pure(func(x int) bool {
+			v9mark(label, xs, &yes, called, x)
+			return v9P(x)
+		})
+	}
+	return Try(func(x int) (bool, error) {
+		v9mark(label, xs, &yes, called, x)
+		if v9E(x) {
+			return true, v9err{x}
+		}
+		return v9P(x), nil
+	})
+}
+
+// v9keep: the elements the sequential Filter keeps (left side of Partition)
+func v9keep(xs *[v9MaxN]int) (keep, drop [v9MaxN]bool) {
+	for i := 0; i < v9n(); i++ {
+		keep[i] = v9P(xs[i]) && !(v9mode() != 0 && v9E(xs[i]))
+		drop[i] = !keep[i]
+	}
+	return
+}
+
+func VForkFilter() {
+	par := vrt.Param("par", 2)
+	xs := v9inputs()
+	keep, _ := v9keep(&xs)
+	var called, seen [v9MaxN]bool
+	ctx := v9ctx()
+	in := v9producer(&xs)
+	out := Filter(ctx, par, in, v9pred(&xs, &called, "filter.call"))
+	v9consume("consumer", "filter.out", out, &xs, &keep, &seen)
+	vrt.Final("filter.closed", func() bool {
+		return !v9quiet(ctx) || (vrt.Closed(out) && vrt.LibExited())
+	})
+	vrt.Final("filter.complete", func() bool {
+		return !v9live(ctx) || (v9iff(&seen, &called, &keep) && vrt.Exited("consumer") && vrt.Exited("producer") && v9all(&called))
+	})
+}
+
+func VForkPartition() {
+	par := vrt.Param("par", 2)
+	xs := v9inputs()
+	keep, drop := v9keep(&xs)
+	var called, seenL, seenR [v9MaxN]bool
+	ctx := v9ctx()
+	in := v9producer(&xs)
+	lout, rout := Partition(ctx, par, in, v9pred(&xs, &called, "partition.call"))
+	v9consume("left", "partition.left", lout, &xs, &keep, &seenL)
+	v9consume("right", "partition.right", rout, &xs, &drop, &seenR)
+	vrt.Final("partition.closed", func() bool {
+		return !v9quiet(ctx) || (vrt.Closed(lout) && vrt.Closed(rout) && vrt.LibExited())
+	})
+	vrt.Final("partition.complete", func() bool {
+		return !v9live(ctx) || (v9iff(&seenL, &called, &keep) && v9iff(&seenR, &called, &drop) &&
+			vrt.Exited("left") && vrt.Exited("right") && vrt.Exited("producer") && v9all(&called))
+	})
+}
+
+// ---------------------------------------------------------------------------
+// ForEach (job parameter void=0) / Void (void=1): no values, the signal channel
+// is closed once every worker has finished.
+
+func VForkForEach() {
+	par := vrt.Param("par", 2)
+	xs := v9inputs()
+	yes := v9yes()
+	var called [v9MaxN]bool
+	ctx := v9ctx()
+	in := v9producer(&xs)
+	var dn <-chan struct{}
+	if vrt.Param("void", 0) == 1 {
+		dn = Void(ctx, par, in)
+	} else {
+		dn = ForEach(ctx, par, in, Pure(func(x int) int {
+			v9mark("foreach.call", &xs, &yes, &called, x)
+			return x
+		}))
+	}
+	if v9take() != 0 {
+		vrt.Go("consumer", func() {
+			for range dn {
+				vrt.Assert("foreach.no-values", false)
+			}
+			vrt.Cover("foreach.signalled")
+		})
+	}
+	vrt.Final("foreach.closed", func() bool {
+		return !v9quiet(ctx) || (vrt.Closed(dn) && vrt.LibExited())
+	})
+	vrt.Final("foreach.complete", func() bool {
+		return v9cancelled(ctx) || (vrt.Exited("producer") && (vrt.Param("void", 0) == 1 || v9all(&called)) &&
+			(v9take() == 0 || vrt.Exited("consumer")) && vrt.Closed(dn) && vrt.LibExited())
 	})
 }
